@@ -89,6 +89,7 @@ func ecdsaKeygenNet(rng *rand.Rand, n, t int, keys []*big.Int, preOffset int) *N
 		params.SetRand(nd.Rand)
 		params.SetPartialKeyRand(nd.Rand)
 		nd.Party = ecdsakeygen.NewLocalParty(params, nd.Out, end, fx[(i+preOffset)%len(fx)].LocalPreParams)
+		nd.Secrets = preParamSecrets(fx[(i+preOffset)%len(fx)].LocalPreParams)
 		nd.drainEnd = func() []interface{} {
 			var out []interface{}
 			for {
@@ -134,6 +135,7 @@ func eddsaSigningNet(rng *rand.Rand, keys []eddsakeygen.LocalPartySaveData, pids
 		} else {
 			nd.Party = eddsasigning.NewLocalParty(msg, params, keys[i], nd.Out, end)
 		}
+		nd.Secrets = append(shareSecrets(keys[i].Xi), weightedShareSecret(pids, i, keys[i].Xi, tss.Edwards().Params().N)...)
 		nd.drainEnd = sigDrain(end)
 		net.Nodes = append(net.Nodes, nd)
 	}
@@ -155,6 +157,7 @@ func ecdsaSigningNet(rng *rand.Rand, keys []ecdsakeygen.LocalPartySaveData, pids
 			fl = []int{fullBytesLen}
 		}
 		nd.Party = ecdsasigning.NewLocalPartyWithKDD(msg, params, keys[i], kdd, nd.Out, end, fl...)
+		nd.Secrets = append(append(shareSecrets(keys[i].Xi), weightedShareSecret(pids, i, keys[i].Xi, tss.S256().Params().N)...), preParamSecrets(keys[i].LocalPreParams)...)
 		nd.drainEnd = sigDrain(end)
 		net.Nodes = append(net.Nodes, nd)
 	}
@@ -212,6 +215,7 @@ func eddsaResharingNet(rng *rand.Rand, oldKeys []eddsakeygen.LocalPartySaveData,
 		params.SetRand(nd.Rand)
 		params.SetPartialKeyRand(nd.Rand)
 		nd.Party = eddsaresharing.NewLocalParty(params, key, nd.Out, end)
+		nd.Secrets = shareSecrets(key.Xi)
 		nd.drainEnd = func() []interface{} {
 			var out []interface{}
 			for {
@@ -251,6 +255,7 @@ func ecdsaResharingNet(rng *rand.Rand, oldKeys []ecdsakeygen.LocalPartySaveData,
 			params.SetNoProofFac()
 		}
 		nd.Party = ecdsaresharing.NewLocalParty(params, key, nd.Out, end)
+		nd.Secrets = append(shareSecrets(key.Xi), preParamSecrets(key.LocalPreParams)...)
 		nd.drainEnd = func() []interface{} {
 			var out []interface{}
 			for {
@@ -273,4 +278,57 @@ func ecdsaResharingNet(rng *rand.Rand, oldKeys []ecdsakeygen.LocalPartySaveData,
 		mk(fmt.Sprintf("new%d", i), id, "new", save)
 	}
 	return net
+}
+
+func preParamSecrets(pp ecdsakeygen.LocalPreParams) []namedSecret {
+	var out []namedSecret
+	add := func(n string, v *big.Int) {
+		if v != nil && v.Sign() != 0 {
+			out = append(out, namedSecret{n, new(big.Int).Set(v)})
+		}
+	}
+	if pp.PaillierSK != nil {
+		add("paillier.P", pp.PaillierSK.P)
+		add("paillier.Q", pp.PaillierSK.Q)
+		add("paillier.LambdaN", pp.PaillierSK.LambdaN)
+		add("paillier.PhiN", pp.PaillierSK.PhiN)
+	}
+	add("ring-pedersen.alpha", pp.Alpha)
+	add("ring-pedersen.beta", pp.Beta)
+	add("ring-pedersen.p", pp.P)
+	add("ring-pedersen.q", pp.Q)
+	return out
+}
+
+func shareSecrets(xi *big.Int) []namedSecret {
+	if xi == nil || xi.Sign() == 0 {
+		return nil
+	}
+	return []namedSecret{{"x_i", new(big.Int).Set(xi)}}
+}
+
+// the Lagrange-weighted share w_i = λ_i·x_i of signer i among the signers `pids`
+func weightedShareSecret(pids tss.SortedPartyIDs, i int, xi, q *big.Int) []namedSecret {
+	if xi == nil || xi.Sign() == 0 {
+		return nil
+	}
+	num, den := big.NewInt(1), big.NewInt(1)
+	ki := new(big.Int).SetBytes(pids[i].Key)
+	for j := range pids {
+		if j == i {
+			continue
+		}
+		kj := new(big.Int).SetBytes(pids[j].Key)
+		num.Mul(num, kj).Mod(num, q)
+		den.Mul(den, new(big.Int).Sub(kj, ki)).Mod(den, q)
+	}
+	inv := new(big.Int).ModInverse(den, q)
+	if inv == nil {
+		return nil
+	}
+	w := num.Mul(num, inv).Mul(num, xi).Mod(num, q)
+	if w.Sign() == 0 {
+		return nil
+	}
+	return []namedSecret{{"w_i", w}}
 }
